@@ -2,6 +2,7 @@ import UberjobModel.Model.Engine
 import UberjobModel.Model.Kahn
 import UberjobModel.Model.FileStoreDrv
 import UberjobModel.Model.TextCodecDrv
+import UberjobModel.Model.JsonDrv
 import UberjobModel.Model.TimeDrv
 import UberjobModel.Model.RefsDrv
 import UberjobModel.Model.HeapDrv
@@ -206,6 +207,7 @@ def step (c : Ctx) (line : String) : Ctx × String :=
   | "wake" :: _ => (c, cmdWake (line.drop 4).toString)
   | "fs" :: _ => (c, Uberjob.FileStore.drv line)
   | "text" :: _ => (c, Uberjob.TextCodec.drv line)
+  | "json" :: _ => (c, Uberjob.Json.drv line)
   | "c18" :: _ => (c, Uberjob.Time.drv line)
   | "c16" :: _ => (c, Uberjob.Refs.drv line)
   | "c13plan" :: _ | "c13reg" :: _ | "c13run" :: _ => (c, Uberjob.Heap.drv line)
